@@ -118,6 +118,31 @@ Proof.
   apply serving_owner in E. exfalso. apply Hj. eapply l1_uniq; eauto.
 Qed.
 
+Lemma is_svconn_serving : forall pc, is_svconn pc = true -> serving pc = true.
+Proof. destruct pc; simpl; congruence. Qed.
+Lemma is_cb2_serving : forall pc, is_cb2 pc = true -> serving pc = true.
+Proof. destruct pc; simpl; congruence. Qed.
+
+(* the owner has not read requests[0] yet: nobody is serving, and every start so far
+   was followed by its application call *)
+Lemma not_started_facts : forall st me, L1 st -> L2 st ->
+  wk_owner (wpc (wk st me)) = true -> serving (wpc (wk st me)) = false -> requests (sh st) <> [] ->
+  starts (sh st) = popped (sh st) /\ starts (sh st) = execs (sh st) /\
+  arrivals (sh st) = popped (sh st) ++ requests (sh st).
+Proof.
+  intros st me HL1 HL2 Ho Hs Hr.
+  assert (Hnone : forall j, serving (wpc (wk st j)) = false).
+  { intro j. destruct (Nat.eq_dec j me) as [->|N]; auto. eapply others_not_serving; eauto. }
+  assert (Hlive : live (sh st)) by (right; auto).
+  repeat split.
+  - apply (l2_idle _ HL2); auto.
+  - destruct (list_eq_dec Nat.eq_dec (starts (sh st)) (execs (sh st))) as [E|N]; auto.
+    destruct (l2_ex2 _ HL2 N) as [[j Hj]|[_ X]].
+    + rewrite Hnone in Hj. discriminate.
+    + congruence.
+  - apply (l2_arr _ HL2); auto.
+Qed.
+
 Section Step.
 Variable P : params.
 
@@ -134,7 +159,9 @@ Ltac fwd :=
   | H : ?A -> _ |- _ =>
       match type of A with
       | Prop => let HA := fresh in
-                assert (HA : A) by (first [ assumption | reflexivity | discriminate | congruence ]);
+                assert (HA : A) by (first [ assumption | reflexivity | discriminate | congruence
+                                          | left; first [assumption | reflexivity | congruence]
+                                          | right; first [assumption | reflexivity | congruence | apply app_one_nonnil ] ]);
                 specialize (H HA); clear HA
       end
   end.
@@ -150,12 +177,72 @@ Ltac lists :=
   | |- _ ++ [_] <> [] => apply app_one_nonnil
   end.
 
+(* use the per-worker clauses for the workers at hand *)
+Ltac inst_wk :=
+  repeat match goal with
+  | C : forall j, serving (wpc (?w j)) = true -> _ /\ _, H : serving (wpc (?w ?j)) = true |- _ =>
+      let X := fresh in pose proof (C j H) as X; destruct X; revert H
+  end; intros.
+
+Ltac upd_hyps :=
+  repeat match goal with
+  | H : forall j : nat, ?f (wpc (upd ?w ?me ?x j)) = ?b |- _ =>
+      apply (upd_forall_elim (fun y => f (wpc y) = b)) in H; destruct H
+  end.
+
+Ltac upd_goal me :=
+  try (exists me; rewrite upd_same; reflexivity);
+  try (left; exists me; rewrite upd_same; reflexivity);
+  unfold upd in *;
+  repeat match goal with
+  | |- context [Nat.eqb ?j me] => destruct (Nat.eqb_spec j me); [subst j|]
+  | H : context [Nat.eqb ?j me] |- _ => destruct (Nat.eqb_spec j me); [subst j|]
+  end.
+
+Ltac bool_goal :=
+  try match goal with
+  | |- ?b = false => match type of b with bool => destruct b eqn:?; [exfalso|reflexivity] end
+  end.
+
+Ltac pc_facts2 :=
+  repeat match goal with
+  | H : execd (wpc ?x) = true |- _ =>
+      lazymatch goal with _ : serving (wpc x) = true |- _ => fail | _ => pose proof (execd_serving _ H) end
+  | H : is_svconn (wpc ?x) = true |- _ =>
+      lazymatch goal with _ : serving (wpc x) = true |- _ => fail | _ => pose proof (is_svconn_serving _ H) end
+  | H : is_cb2 (wpc ?x) = true |- _ =>
+      lazymatch goal with _ : serving (wpc x) = true |- _ => fail | _ => pose proof (is_cb2_serving _ H) end
+  | H : io_app ?pc = true |- _ =>
+      lazymatch goal with _ : io_rl pc = true |- _ => fail | _ => pose proof (io_app_rl _ H) end
+  end.
+
+Ltac oth_contra :=
+  repeat match goal with
+  | Hoth : forall j, j <> ?me -> serving (wpc (?w j)) = false, N : ?j <> ?me, H : serving (wpc (?w ?j)) = true |- _ =>
+      rewrite (Hoth j N) in H; discriminate H
+  end.
+
 Ltac fin :=
-  bool_hyps; cbn in *; unfold live in *; lists;
+  bool_hyps; cbn in *; unfold live in *; cbn in *; lists;
   try solve [ eauto ];
   try slv;
-  fwd; lists;
+  fwd; inst_wk; lists;
+  try slv;
+  try (match goal with A : arrivals _ = _ |- _ => rewrite A end; rewrite <- ?app_assoc; reflexivity);
+  try (split; [assumption | lists; assumption]);
+  bool_goal; fwd;
+  try slv;
+  pc_facts2; fwd; oth_contra;
   try slv.
+
+(* last resort for the worker cases: split on the request list *)
+Ltac fin_req :=
+  match goal with
+  | s : shared |- _ =>
+      destruct (requests s) as [|? ?] eqn:?; cbn in *; fwd; inst_wk; lists; subst;
+      rewrite <- ?app_assoc; cbn;
+      try slv
+  end.
 
 Theorem L2_step : forall st c st' l, L0 st -> L1 st -> L2 st -> step P st c = Some (st', l) -> L2 st'.
 Proof.
@@ -163,12 +250,28 @@ Proof.
   destruct c as [e | me e].
   - step_io Hs; cbn [sh io wk ipc] in *.
     all: try (frame_io HL2).
-    all: destruct HL2 as [A B C D Ka Kb Kc E1 E2 E3 Cb Sv]; cbn [sh io wk ipc] in *.
+    all: destruct HL2 as [LA LB LC LD LKa LKb LKc LE1 LE2 LE3 LCb LSv]; cbn [sh io wk ipc] in *.
+    all: clear HL0 HL1.
     all: split; cbn [sh io wk ipc io_app is_rccwf is_wwc]; intros.
     all: fin.
-    all: match goal with |- ?G => idtac "IOGOAL" G end.
-    Show 1. Show 2. Show 3.
-    all: admit.
-  - admit.
-Admitted.
+  - pose proof (others_not_serving st me HL1) as Hoth.
+    pose proof (not_started_facts st me HL1 HL2) as Hns.
+    pose proof (l1_ownreq _ HL1 me) as Hor.
+    pose proof (lock_ok_wk_io _ _ _ _ (l0_r _ HL0) me) as Hrl.
+    step_wk Hs; cbn [sh io wk ipc] in *.
+    all: try (frame_wk HL2 me Hw).
+    all: destruct HL2 as [LA LB LC LD LKa LKb LKc LE1 LE2 LE3 LCb LSv]; cbn [sh io wk ipc] in *.
+    all: pose proof (LC me) as C_me; pose proof (LE3 me) as E3_me; pose proof (LCb me) as Cb_me; pose proof (LSv me) as Sv_me.
+    all: clear HL0 HL1.
+    all: rewrite Hw in *; cbn [wpc w_cur] in *.
+    all: split; cbn [sh io wk ipc io_app is_rccwf is_wwc]; intros.
+    all: upd_hyps; upd_goal me; cbn [wpc w_cur] in *.
+    all: fin.
+    all: try (destruct Hns as [Hns1 [Hns2 Hns3]]; [reflexivity|reflexivity|congruence|]; rewrite ?Hns1, ?Hns2, ?Hns3 in *).
+    all: fin.
+    all: try fin_req.
+    all: destruct Hns as [Hns1 [Hns2 Hns3]].
+    all: first [ right; eexists; rewrite Hns2; reflexivity
+               | unfold prefix; eexists; rewrite Hns3, Hns1, <- app_assoc; cbn; reflexivity ].
+Qed.
 End Step.
